@@ -23,11 +23,14 @@ import (
 	"io"
 	"net"
 	"os"
+	"os/signal"
 	"path/filepath"
 	"runtime"
 	"sort"
 	"strconv"
 	"strings"
+	"sync"
+	"sync/atomic"
 	"syscall"
 	"time"
 
@@ -64,6 +67,7 @@ type loopObj struct {
 type loopOp struct {
 	obj   int
 	kind  string // read write timer post accept recvfrom sendto
+	chain bool   // re-issues itself from its callback
 	rep   bool
 	done  bool
 	t0    time.Time
@@ -80,6 +84,75 @@ type loopWorld struct {
 	depth  int
 	tmp    string
 	keep   [][]byte // buffers kept alive
+	tid    int      // OS thread the loop runs on (signals are aimed at it)
+	dead   bool     // a run call had to be broken out of: the IO context is in an unknown state, the script stops
+}
+
+// loopHang is the panic value with which the watchdog breaks out of a RunOne/RunPending that does not return.
+type loopHang struct{}
+
+var loopSigOnce sync.Once
+
+// signalAfter interrupts the loop thread (SIGUSR1, handled and ignored by the Go runtime) after d: an epoll_wait in
+// progress returns EINTR.
+func (lw *loopWorld) signalAfter(d time.Duration) {
+	loopSigOnce.Do(func() { signal.Notify(make(chan os.Signal, 64), syscall.SIGUSR1) })
+	tid := lw.tid
+	go func() {
+		time.Sleep(d)
+		_ = syscall.Tgkill(syscall.Getpid(), tid, syscall.SIGUSR1)
+	}()
+}
+
+// runnable: may RunOne / RunPending be called now without blocking forever on correct code?  Every operation in
+// flight must be able to complete without further stimulus once its peer has been fed (done here), must not re-issue
+// itself or run a handler program, and no repeating timer may be armed. Returns the longest timer delay to wait for.
+func (lw *loopWorld) runnable(needOne bool) (bool, time.Duration) {
+	if lw.depth != 0 || lw.ioc.Dispatched != 0 {
+		return false, 0
+	}
+	var ids []int
+	for id, op := range lw.ops {
+		if op.done {
+			continue
+		}
+		if op.kind != "post" {
+			if ob := lw.objs[op.obj]; ob == nil || ob.closed {
+				continue
+			}
+		}
+		if op.rep || op.chain || len(lw.progs[id]) > 0 || op.kind == "write" {
+			return false, 0
+		}
+		if op.kind == "read" && lw.objs[op.obj].kind == "regular" {
+			return false, 0
+		}
+		ids = append(ids, id)
+	}
+	if needOne && len(ids) == 0 {
+		return false, 0
+	}
+	sort.Ints(ids)
+	maxWait := time.Duration(0)
+	for _, id := range ids {
+		op := lw.ops[id]
+		switch op.kind {
+		case "read":
+			switch lw.objs[op.obj].kind {
+			case "tcp", "adapter", "fifo":
+				lw.peer([]string{"peer", strconv.Itoa(op.obj), "write", "300"})
+			case "listener":
+				lw.peer([]string{"peer", strconv.Itoa(op.obj), "connect"})
+			case "packet":
+				lw.peer([]string{"peer", strconv.Itoa(op.obj), "send", "8"})
+			}
+		case "timer":
+			if w := time.Until(op.t0.Add(op.delay)); w > maxWait {
+				maxWait = w
+			}
+		}
+	}
+	return true, maxWait
 }
 
 func streamByte(k, i int) byte { return byte((i*7 + k*13 + 1) % 251) }
@@ -182,7 +255,7 @@ func (lw *loopWorld) chainNext(fields []string) func() {
 }
 
 func (lw *loopWorld) exec(f []string) {
-	if len(f) == 0 {
+	if len(f) == 0 || lw.dead {
 		return
 	}
 	call := strings.Join(f, " ")
@@ -227,7 +300,8 @@ func (lw *loopWorld) exec(f []string) {
 		if isRead {
 			dir = "read"
 		}
-		lw.ops[id] = &loopOp{obj: k, kind: dir}
+		_, chained := attr(f, "chain")
+		lw.ops[id] = &loopOp{obj: k, kind: dir, chain: chained}
 		b := make([]byte, n)
 		lw.keep = append(lw.keep, b)
 		if !isRead {
@@ -427,6 +501,62 @@ func (lw *loopWorld) exec(f []string) {
 		lw.ev("call poll d=%d", lw.depth)
 		err := lw.ioc.RunOneFor(time.Duration(atoi(f[1])) * loopTick)
 		lw.ev("ret n=-1 err=%s", errClass(err))
+	case "pollsig":
+		// RunOneFor interrupted by a signal: reported as a timeout (possibly early), never as an error
+		lw.ev("call poll d=%d", lw.depth)
+		d := time.Duration(atoi(f[1])) * loopTick
+		lw.signalAfter(d / 3)
+		err := lw.ioc.RunOneFor(d)
+		lw.ev("ret n=-1 err=%s", errClass(err))
+	case "runone", "runpending":
+		ok, wait := lw.runnable(f[0] == "runone")
+		if !ok {
+			return
+		}
+		lw.ev("call poll d=%d", lw.depth)
+		var active int32 = 1
+		wd := time.AfterFunc(wait+4*time.Second, func() {
+			_ = lw.ioc.Post(func() {
+				if atomic.LoadInt32(&active) == 1 {
+					panic(loopHang{})
+				}
+			})
+		})
+		if _, sig := attr(f, "sig"); sig {
+			lw.signalAfter(time.Millisecond)
+			lw.signalAfter(3 * time.Millisecond)
+		}
+		hung := false
+		var err error
+		func() {
+			defer func() {
+				if r := recover(); r != nil {
+					if _, isHang := r.(loopHang); !isHang {
+						panic(r)
+					}
+					hung = true
+				}
+			}()
+			if f[0] == "runone" {
+				err = lw.ioc.RunOne()
+			} else {
+				err = lw.ioc.RunPending()
+			}
+		}()
+		atomic.StoreInt32(&active, 0)
+		code := -1
+		if f[0] == "runpending" {
+			code = -2
+		}
+		if hung {
+			lw.ev("ret n=%d err=hang", code)
+			lw.dead = true
+			return
+		}
+		if !wd.Stop() {
+			lw.dead = true // the watchdog's handler may still be queued: nothing further can be compared
+		}
+		lw.ev("ret n=%d err=%s", code, errClass(err))
 	case "sleep":
 		time.Sleep(time.Duration(atoi(f[1])) * loopTick)
 	case "pending":
@@ -559,7 +689,14 @@ func (lw *loopWorld) peer(f []string) {
 			res = fmt.Sprintf("len=%d data=%s", len(got), hexOrDash(got))
 		}
 	case "connect":
-		c, err := net.DialTimeout("tcp", o.ln.Addr().String(), 500*time.Millisecond)
+		// sonic.Listen keeps the requested port (0) in Addr(); ask the kernel which port was bound
+		addr := o.ln.Addr().String()
+		if sa, e := syscall.Getsockname(o.ln.RawFd()); e == nil {
+			if s4, ok := sa.(*syscall.SockaddrInet4); ok {
+				addr = fmt.Sprintf("127.0.0.1:%d", s4.Port)
+			}
+		}
+		c, err := net.DialTimeout("tcp", addr, 500*time.Millisecond)
 		if err != nil {
 			res = "fail"
 		} else {
@@ -875,6 +1012,7 @@ func loopRun(script []string, w *bufio.Writer) {
 		return
 	}
 	lw.ioc = ioc
+	lw.tid = syscall.Gettid()
 	lw.tmp, _ = os.MkdirTemp("", "verif-loop-")
 	defer lw.cleanup()
 	for _, line := range script {
@@ -1090,7 +1228,14 @@ func loopGen(r *rng, maxops int, w *bufio.Writer) {
 				fmt.Fprintf(w, "! pending\n")
 			}
 		case 9:
-			fmt.Fprintf(w, "! pending\n")
+			switch r.intn(6) {
+			case 0:
+				fmt.Fprintf(w, "! pollsig %d\n! pending\n", r.pick(2, 3, 6))
+			case 1:
+				fmt.Fprintf(w, "! %s%s\n! pending\n", r.pick2("runone", "runpending"), r.pick2("", " sig=1"))
+			default:
+				fmt.Fprintf(w, "! pending\n")
+			}
 		}
 	}
 	fmt.Fprintf(w, "! setdisp 0\n! finish\n! pending\n")
@@ -1098,4 +1243,134 @@ func loopGen(r *rng, maxops int, w *bufio.Writer) {
 
 func (r *rng) pick2(xs ...string) string { return xs[r.intn(len(xs))] }
 
-func loopEnum(args []string, w *bufio.Writer) {}
+// loopEnum writes the scenario families: small deterministic scripts built around the situations that random
+// generation reaches rarely — an operation deferred only because the dispatch limit was reached, following another
+// one with a different buffer and callback; ReadAll/WriteAll meeting a partial transfer and then the end of the
+// stream; waits interrupted by a signal; RunOne / RunPending with every kind of operation in flight; Close with
+// both directions in flight. Every family is instantiated for every object kind and operation variant it applies to.
+func loopEnum(args []string, w *bufio.Writer) {
+	k := 0
+	emit := func(lines ...string) {
+		fmt.Fprintf(w, "# script %d\n", k)
+		k++
+		for _, l := range lines {
+			for _, a := range strings.Split(l, "\n") {
+				if a = strings.TrimSpace(a); a != "" {
+					fmt.Fprintf(w, "! %s\n", a)
+				}
+			}
+		}
+		fmt.Fprintf(w, "! setdisp 0\n! finish\n! pending\n")
+	}
+	streamKinds := []string{"tcp", "adapter", "fifo"}
+	// 1. deferred at the dispatch limit, after an inline operation with another buffer
+	for _, kind := range []string{"tcp", "adapter"} {
+		for _, a := range []string{"write", "writeall"} {
+			for _, b := range []string{"write", "writeall"} {
+				for _, disp := range []int{31, 32, 33} {
+					emit("obj 1 "+kind, fmt.Sprintf("%s 1 3 op=11", a), fmt.Sprintf("setdisp %d", disp), fmt.Sprintf("%s 1 5 op=12", b),
+						"setdisp 0", "pending", "poll", "peer 1 drain", "pending")
+				}
+			}
+		}
+		// the first write of an object is the one deferred; another object wrote before
+		emit("obj 1 "+kind, "obj 2 "+kind, "write 1 3 op=11", "setdisp 32", "write 2 5 op=12", "setdisp 0", "poll", "peer 2 drain", "peer 1 drain", "pending")
+		// a chain that runs into the limit by itself, every link with its own buffer
+		emit("obj 1 "+kind, "write 1 2 op=11 chain=40", "poll", "poll", "peer 1 drain", "pending")
+	}
+	for _, kind := range streamKinds {
+		for _, a := range []string{"read", "readall"} {
+			for _, b := range []string{"read", "readall"} {
+				for _, disp := range []int{31, 32} {
+					emit("obj 1 "+kind, "peer 1 write 3", fmt.Sprintf("%s 1 3 op=11", a), "peer 1 write 5", fmt.Sprintf("setdisp %d", disp),
+						fmt.Sprintf("%s 1 5 op=12", b), "setdisp 0", "pending", "poll", "pending")
+				}
+			}
+		}
+		emit("obj 1 "+kind, "peer 1 write 90", "read 1 2 op=11 chain=40", "poll", "poll", "pending")
+	}
+	for _, disp := range []int{31, 32, 33} {
+		emit("obj 1 listener", "peer 1 connect", fmt.Sprintf("setdisp %d", disp), "accept 1 op=11", "setdisp 0", "pending", "poll", "pending")
+		emit("obj 1 listener", "peer 1 connect", "peer 1 connect", "accept 1 op=11", fmt.Sprintf("setdisp %d", disp), "accept 1 op=12", "setdisp 0", "poll", "pending")
+		emit("obj 1 packet", "peer 1 send 8", fmt.Sprintf("setdisp %d", disp), "recvfrom 1 16 op=11", "setdisp 0", "pending", "poll", "pending")
+		emit("obj 1 packet", fmt.Sprintf("setdisp %d", disp), "sendto 1 8 op=11", "setdisp 0", "pending", "poll", "peer 1 recv", "pending")
+		emit("obj 1 tcp", "obj 2 listener", "peer 2 connect", "peer 1 write 64", "prog 11 accept 2 op=12", fmt.Sprintf("setdisp %d", disp-1),
+			"read 1 4 op=11", "setdisp 0", "poll", "pending")
+	}
+	emit("obj 1 listener", "peer 1 connect\npeer 1 connect\npeer 1 connect", "accept 1 op=11 chain=40", "poll", "pending")
+	// a read chain of exactly the limit, then an accept issued from the innermost callback
+	emit("obj 1 tcp", "obj 2 listener", "peer 2 connect", "peer 1 write 200", "prog 11 accept 2 op=12", "read 1 1 op=+ chain=31", "pending")
+	// 2. ReadAll / WriteAll: partial transfer, then more data or the end of the stream
+	for _, kind := range streamKinds {
+		for _, end := range []string{"peer 1 write 10", "peer 1 close", "peer 1 shutwr", "peer 1 rst"} {
+			if kind == "fifo" && (end == "peer 1 shutwr" || end == "peer 1 rst") {
+				continue
+			}
+			emit("obj 1 "+kind, "readall 1 16 op=11", "peer 1 write 6", "poll", end, "poll", "pending")
+			emit("obj 1 "+kind, "readall 1 16 op=11", "peer 1 write 6", end, "poll", "poll", "pending")
+			emit("obj 1 "+kind, "peer 1 write 6", "readall 1 16 op=11", end, "poll", "pending")
+			emit("obj 1 "+kind, "peer 1 write 6", end, "readall 1 16 op=11", "poll", "readall 1 4 op=12", "poll", "pending")
+			emit("obj 1 "+kind, "peer 1 write 16", "readall 1 16 op=11", "peer 1 write 6", end, "readall 1 16 op=12", "poll", "poll", "pending")
+			emit("obj 1 "+kind, "read 1 16 op=11", "peer 1 write 6", end, "poll", "read 1 16 op=12", "poll", "pending")
+		}
+	}
+	for _, a := range []string{"write", "writeall"} {
+		for _, n := range []int{5000, 20000, 70000} {
+			emit("obj 1 tcp", fmt.Sprintf("%s 1 %d op=11", a, n), "pending", "peer 1 drain", "poll", "peer 1 drain", "poll", "pending")
+			emit("obj 1 tcp", fmt.Sprintf("%s 1 %d op=11", a, n), "peer 1 close", "poll", "poll", "pending")
+			emit("obj 1 tcp", fmt.Sprintf("%s 1 %d op=11", a, n), "read 1 8 op=12", "close 1", "pending", "poll", "pending")
+			emit("obj 1 tcp", fmt.Sprintf("%s 1 %d op=11", a, n), "read 1 8 op=12", "cancel 1", "pending", "poll", "pending")
+		}
+	}
+	// 3. waits interrupted by a signal; RunOne / RunPending
+	for _, sig := range []string{"", " sig=1"} {
+		emit("obj 1 timer", "sched 1 once 3 op=11", "runpending"+sig, "pending")
+		emit("obj 1 timer", "sched 1 once 3 op=11", "runone"+sig, "pending")
+		emit("obj 1 timer", "obj 2 timer", "sched 1 once 2 op=11", "sched 2 once 4 op=12", "post op=13", "runpending"+sig, "pending")
+		emit("obj 1 timer", "post op=11", "post op=12", "runone"+sig, "pending", "runpending"+sig, "pending")
+		for _, kind := range streamKinds {
+			emit("obj 1 "+kind, "obj 2 timer", "read 1 8 op=11", "sched 2 once 2 op=12", "pending", "runpending"+sig, "pending")
+			emit("obj 1 "+kind, "readall 1 8 op=11", "runone"+sig, "pending", "runpending"+sig, "pending")
+			emit("obj 1 "+kind, "read 1 8 op=11", "cancel 1", "runpending"+sig, "pending")
+			emit("obj 1 "+kind, "obj 2 timer", "read 1 8 op=11", "sched 2 once 2 op=12", "close 1", "runpending"+sig, "pending")
+		}
+		emit("obj 1 listener", "accept 1 op=11", "runpending"+sig, "pending")
+		emit("obj 1 packet", "recvfrom 1 16 op=11", "runpending"+sig, "pending")
+		emit("obj 1 timer", "sched 1 once 2 op=11", "tcancel 1", "runpending"+sig, "pending")
+		emit("obj 1 timer", "runpending"+sig, "pending")
+	}
+	for _, t := range []int{3, 6} {
+		emit("obj 1 timer", fmt.Sprintf("sched 1 once %d op=11", 2*t), fmt.Sprintf("pollsig %d", t), "pending", "scheduled 1")
+		emit("obj 1 tcp", "read 1 8 op=11", fmt.Sprintf("pollsig %d", t), "pending", "peer 1 write 8", fmt.Sprintf("pollsig %d", t), "pending")
+		emit("obj 1 timer", "post op=11", fmt.Sprintf("pollsig %d", t), "pending")
+		emit("obj 1 timer", fmt.Sprintf("pollsig %d", t), "pending")
+	}
+	// 4. Close / Cancel with both directions in flight, per kind
+	for _, kind := range []string{"tcp"} {
+		for _, end := range []string{"close 1", "cancel 1", "peer 1 close", "peer 1 rst"} {
+			emit("obj 1 "+kind, "writeall 1 70000 op=11", "read 1 8 op=12", "pending", end, "pending", "poll", "poll", "pending")
+		}
+	}
+	emit("obj 1 packet", "recvfrom 1 16 op=11", "close 1", "pending", "poll", "pending")
+	emit("obj 1 listener", "accept 1 op=11", "close 1", "pending", "poll", "pending")
+	// 5. two completions harvested by the same epoll_wait: the handler that runs first closes / cancels the other
+	// object (the batch order is the kernel's, so both handlers carry the program)
+	for _, act := range []string{"close", "tcancel"} {
+		for _, mode := range []string{"once", "rep"} {
+			emit("obj 1 timer", "obj 2 timer", "prog 11 "+act+" 2", "prog 12 "+act+" 1", "sched 1 "+mode+" 1 op=11", "sched 2 "+mode+" 1 op=12",
+				"sleep 3", "poll", "pending", "scheduled 1", "scheduled 2", "poll", "sched 1 once 0 op=13", "sched 2 once 0 op=14", "pending", "tcancel 1", "tcancel 2")
+		}
+		emit("obj 1 timer", "obj 2 tcp", "prog 12 "+act+" 1", "sched 1 once 1 op=11", "read 2 4 op=12", "peer 2 write 4", "sleep 3", "poll", "pending",
+			"scheduled 1", "poll", "pending")
+		emit("obj 1 timer", "prog 12 "+act+" 1", "sched 1 once 1 op=11", "post op=12", "sleep 3", "poll", "pending", "scheduled 1", "poll", "pending")
+	}
+	for _, act := range []string{"close", "cancel"} {
+		for _, kind := range streamKinds {
+			emit("obj 1 "+kind, "obj 2 "+kind, "prog 11 "+act+" 2", "prog 12 "+act+" 1", "read 1 4 op=11", "read 2 4 op=12", "peer 1 write 4", "peer 2 write 4",
+				"poll", "pending", "poll", "pending")
+		}
+		emit("obj 1 tcp", "prog 11 "+act+" 1", "prog 12 "+act+" 1", "writeall 1 70000 op=12", "read 1 4 op=11", "peer 1 write 4", "peer 1 drain", "poll", "pending", "poll", "pending")
+	}
+	emit("obj 1 listener", "obj 2 tcp", "prog 12 close 1", "prog 11 close 2", "accept 1 op=11", "read 2 4 op=12", "peer 1 connect", "peer 2 write 4", "poll", "pending", "poll", "pending")
+	emit("obj 1 packet", "obj 2 tcp", "prog 12 close 1", "prog 11 close 2", "recvfrom 1 16 op=11", "read 2 4 op=12", "peer 1 send 8", "peer 2 write 4", "poll", "pending", "poll", "pending")
+}
